@@ -115,6 +115,10 @@ type H struct {
 	obs   []Obs
 	depth int // plain counter: handler / callback turns of the owner in progress
 	cur   int // index of the step being performed
+	offerRace int // senders released from DelayQueue.wakeupC at the end of the run
+	running int // wheels that were still running when the run was over (stopped by the harness)
+	arm1  int64 // the next OnRestarting (fail) / OnTerminate (stop, end) handler sleeps this long, once
+	arm2  int64 // the next OnTerminated handler sleeps this long, once
 	inc   int
 	ctxs  []vivid.ActorContext
 	owner vivid.ActorRef
@@ -220,7 +224,12 @@ func (o *owner) OnReceive(ctx vivid.ActorContext) {
 	h := o.h
 	h.enter("handler")
 	defer h.exit()
-	st := &h.c.Steps[h.cur]
+	nap := func(d *int64) {
+		if v := *d; v > 0 {
+			*d = 0
+			time.Sleep(time.Duration(v))
+		}
+	}
 	switch m := ctx.Message().(type) {
 	case *vivid.OnLaunch:
 		h.mu.Lock()
@@ -230,22 +239,16 @@ func (o *owner) OnReceive(ctx vivid.ActorContext) {
 		h.note(Obs{K: "launch", Inc: o.inc})
 	case *vivid.OnRestarting:
 		h.note(Obs{K: "restarting", Inc: o.inc, Step: h.cur})
-		if st.K == "fail" && st.Busy > 0 {
-			time.Sleep(time.Duration(st.Busy))
-		}
+		nap(&h.arm1)
 	case *vivid.OnRestarted:
 		h.note(Obs{K: "restarted", Inc: o.inc, Step: h.cur})
 	case *vivid.OnTerminate:
 		h.note(Obs{K: "terminate", Inc: o.inc, Step: h.cur})
-		if (st.K == "stop" || st.K == "end") && st.Busy > 0 {
-			time.Sleep(time.Duration(st.Busy))
-		}
+		nap(&h.arm1)
 	case *vivid.OnTerminated:
 		if m.TerminatedActor.Equal(ctx.Ref()) {
 			h.note(Obs{K: "terminated", Inc: o.inc, Step: h.cur})
-			if st.K != "msg" && st.Busy2 > 0 {
-				time.Sleep(time.Duration(st.Busy2))
-			}
+			nap(&h.arm2)
 		}
 	case *stepMsg:
 		s := &h.c.Steps[m.i]
@@ -310,9 +313,25 @@ func emergency(h *H, sys *vivid.ActorSystem, hung bool) (msg string) {
 		if sp == nil {
 			continue
 		}
+		tw := unexported(reflect.ValueOf(sp).Elem(), "wheel").Interface().(*timingwheel.TimingWheel)
 		func() {
-			defer func() { _ = recover() }() // already stopped
-			unexported(reflect.ValueOf(sp).Elem(), "wheel").Interface().(*timingwheel.TimingWheel).Stop()
+			defer func() { _ = recover() }() // already stopped: close of a closed channel
+			tw.Stop()
+			h.running++ // Stop returned: the wheel was still running
+		}()
+		// timingwheel's DelayQueue.Offer can be left blocked on wakeupC when Poll exits at the same moment (a race inside
+		// the dependency between Stop and a timer that is being re-added): release such a sender so that the bubble can end
+		func() {
+			defer func() { _ = recover() }()
+			dq := unexported(reflect.ValueOf(tw).Elem(), "queue")
+			ch := unexported(dq.Elem(), "wakeupC").Interface().(chan struct{})
+			for k := 0; k < 16; k++ {
+				select {
+				case <-ch:
+					h.offerRace++
+				default:
+				}
+			}
 		}()
 	}
 	if hung {
@@ -353,6 +372,10 @@ func runImpl(t *testing.T, c *Case) {
 				st := &c.Steps[i]
 				sleepTo(st.At)
 				h.cur = i
+				h.arm1, h.arm2 = 0, 0
+				if st.K != "msg" {
+					h.arm1, h.arm2 = st.Busy, st.Busy2
+				}
 				switch st.K {
 				case "msg":
 					sys.Tell(h.owner, &stepMsg{i: i})
@@ -379,7 +402,15 @@ func runImpl(t *testing.T, c *Case) {
 				}
 			}
 			synctest.Wait()
-			emergency(h, sys, false) // a scheduler whose Close panicked keeps its wheel running
+			before := h.running
+			emergency(h, sys, false) // a scheduler that was not closed keeps its wheel's goroutines in the bubble
+			if h.offerRace > 0 {
+				h.note(Obs{K: "offer-race", Note: fmt.Sprintf("%d goroutine(s) of the timing wheel were blocked in DelayQueue.Offer after Stop", h.offerRace)})
+				synctest.Wait()
+			}
+			if h.running > before {
+				h.note(Obs{K: "wheel", Note: fmt.Sprintf("%d timing wheel(s) of the owner still running after the system was shut down", h.running-before)})
+			}
 			synctest.Wait()
 		})
 	}()
@@ -467,6 +498,7 @@ func monitor(c *Case) (viol []vh.Violation) {
 	// --- what happened
 	var termSeq, termMs = -1, int64(-1) // final OnTerminated of the owner
 	launches, restartings, hung, shutdown, childterm := 0, 0, false, false, false
+	wheel := ""
 	lastInc := 0
 	for _, o := range c.Obs {
 		switch o.K {
@@ -479,6 +511,8 @@ func monitor(c *Case) (viol []vh.Violation) {
 			lastInc = o.Inc
 		case "restarting":
 			restartings++
+		case "wheel":
+			wheel = o.Note
 		case "hang":
 			hung = true
 		case "shutdown":
@@ -525,22 +559,25 @@ func monitor(c *Case) (viol []vh.Violation) {
 		if c.Steps[i].K != "fail" {
 			continue
 		}
-		alive := termMs < 0 || termMs*ms > c.Steps[i].At
 		got := false
 		for _, o := range c.Obs {
 			if o.K == "msg" && o.Step == i && o.Note == "fails" {
 				got = true
 			}
 		}
-		if alive && got {
+		if got { // the failing message was handled: the owner was alive
 			wantInc++
 		}
 	}
-	if lastInc < wantInc && !hung {
+	if lastInc < wantInc {
 		add("restart", "not-restarted", fmt.Sprintf("%d incarnation(s) launched, %d expected after the scripted failures", lastInc, wantInc))
+		return // the owner is stuck in the middle of its restart: nothing that follows means anything
 	}
 	if (stopStep >= 0 || endStep >= 0) && termSeq < 0 {
 		add("terminate", "not-terminated", "the owner never received its own OnTerminated although it was stopped / the system was shut down")
+	}
+	if wheel != "" && !hung {
+		add("terminate", "scheduler-not-closed", wheel)
 	}
 	if termSeq >= 0 && !childterm {
 		add("terminate", "parent-not-notified", fmt.Sprintf("the owner terminated at +%dms but its parent never received OnTerminated", termMs))
@@ -805,6 +842,37 @@ func monitor(c *Case) (viol []vh.Violation) {
 			}
 		}
 	}
+	if c.Idle > 0 && launches > 0 {
+		// the owner must go away once nothing has happened to it for the idle deadline
+		last := int64(-1)
+		stopAt := termSeq // the OnTerminate that belongs to the final termination
+		if termSeq > 0 && c.Obs[termSeq-1].K == "terminate" {
+			stopAt = termSeq - 1
+		}
+		for _, o := range c.Obs {
+			if termSeq >= 0 && o.Seq >= stopAt {
+				break
+			}
+			switch o.K {
+			case "msg":
+				last = o.Ms * ms
+				if o.Note != "fails" {
+					last += c.Steps[o.Step].Busy
+				}
+			case "cb", "launch", "restarted":
+				last = o.Ms * ms
+			case "restarting", "terminate", "terminated":
+				last = o.Ms*ms + c.Steps[o.Step].Busy + c.Steps[o.Step].Busy2
+			}
+		}
+		limit := end
+		if termSeq >= 0 && stopAt >= 0 {
+			limit = c.Obs[stopAt].Ms * ms
+		}
+		if last >= 0 && limit-last > maxd(c.Idle, tick)+3*tick+2*ms {
+			add("idle-expire", "idle-missed", fmt.Sprintf("idle deadline %v: the owner's last turn ended at +%.3fms, it was still there at +%.3fms", time.Duration(c.Idle), float64(last)/1e6, float64(limit)/1e6))
+		}
+	}
 	if c.Expire > 0 && stopStep < 0 {
 		dueAt := c.Spawn + maxd(c.Expire, tick) + 2*tick + ms
 		if be := busyEnd(dueAt-3*tick-2*ms, dueAt); be >= 0 {
@@ -826,6 +894,85 @@ func maxd(a, b int64) int64 {
 		return a
 	}
 	return b
+}
+
+// ---------------------------------------------------------------- Coq terms
+
+func zz(v int64) string {
+	if v >= 0 {
+		return fmt.Sprintf("(zi %d)", v)
+	}
+	return fmt.Sprintf("(zn %d)", -v)
+}
+func coqSpec(sp *Spec) string {
+	switch sp.K {
+	case "after":
+		return vh.App("SAfter", zz(sp.A))
+	case "repeat":
+		return vh.App("SRepeat", zz(sp.A), zz(sp.I), zz(sp.N))
+	case "cron":
+		return vh.App("SCron", zz(sp.C), "false")
+	}
+	panic(sp.K)
+}
+func coqActs(as []Act) string {
+	it := make([]string, len(as))
+	for i, a := range as {
+		if a.K == "stop" {
+			it[i] = vh.App("AStop", vh.Nat(a.Name))
+			continue
+		}
+		re := make([]string, len(a.Re))
+		for j, r := range a.Re {
+			x := "ARUnreg"
+			if r.K == "rereg" {
+				x = vh.App("ARRereg", vh.Nat(r.Tag), coqSpec(r.Sp))
+			}
+			re[j] = vh.Pair(zz(r.Ord), x)
+		}
+		it[i] = vh.App("AReg", vh.Nat(a.Name), vh.Nat(a.Tag), coqSpec(a.Sp), vh.List(re))
+	}
+	return vh.List(it)
+}
+func coqCase(id int, c *Case) string {
+	ops := []string{vh.App("AAdvance", zz(c.Start+c.Spawn)), vh.App("ASpawn", zz(c.Idle), zz(c.Expire))}
+	for i := range c.Steps {
+		st := &c.Steps[i]
+		ops = append(ops, vh.App("AAdvance", zz(c.Start+st.At)))
+		switch st.K {
+		case "msg":
+			ops = append(ops, vh.App("AMsg", coqActs(st.Acts), zz(st.Busy), coqActs(st.Post)))
+		case "fail":
+			ops = append(ops, vh.App("AFail", zz(st.Busy), zz(st.Busy2)))
+		case "stop", "end":
+			ops = append(ops, vh.App("AStopOp", vh.Bool(st.Graceful), zz(st.Busy), zz(st.Busy2)))
+		}
+	}
+	var evs []string
+	term := "None"
+	lastInc := 0
+	for _, o := range c.Obs {
+		if o.K == "launch" {
+			lastInc = o.Inc
+		}
+	}
+	for i, o := range c.Obs {
+		switch o.K {
+		case "cb":
+			evs = append(evs, vh.App("aev", zz(c.Start/ms+o.Ms), vh.Nat(o.Tag), zz(o.Ord)))
+		case "terminated":
+			final := o.Inc >= lastInc
+			for _, p := range c.Obs[i+1:] {
+				if p.K == "launch" || p.K == "restarted" {
+					final = false
+				}
+			}
+			if final {
+				term = vh.Some(zz(c.Start/ms + o.Ms))
+			}
+		}
+	}
+	return fmt.Sprintf("{| acid := %d; acstart := %s; acops := %s; acevs := %s; acterm := %s |}", id, zz(c.Start), vh.List(ops), vh.List(evs), term)
 }
 
 // ---------------------------------------------------------------- generator
@@ -887,10 +1034,13 @@ func genCase(rng *vh.RNG) Case {
 	var c Case
 	c.Spawn = instant(rng, 0)
 	if rng.Chance(2, 5) {
-		c.Idle = int64(rng.Range(2, int(maxMul)))*unit + int64(rng.Intn(2))*int64(rng.Intn(int(ms)))
+		c.Idle = int64(rng.Range(2, int(maxMul))) * unit / ms * ms
+		if rng.Chance(1, 2) { // longer than every delay and interval: the deadline rarely shares a bucket with a task
+			c.Idle = (maxMul*unit + int64(rng.Range(1, 9))*tick + 3*ms) / ms * ms
+		}
 	}
 	if rng.Chance(1, 4) {
-		c.Expire = int64(rng.Range(int(maxMul), int(4*maxMul))) * unit
+		c.Expire = int64(rng.Range(int(maxMul), int(4*maxMul))) * unit / ms * ms
 	}
 	n := rng.Range(2, 8)
 	sl := make([]int64, n)
@@ -905,6 +1055,7 @@ func genCase(rng *vh.RNG) Case {
 	}
 	tag := 0
 	forever := 0
+	uniq := 0
 	acts := func(k int, slot int64) []Act {
 		var as []Act
 		for j := 0; j < k; j++ {
@@ -935,6 +1086,8 @@ func genCase(rng *vh.RNG) Case {
 					}
 				}
 				a.Re = []React{rc}
+				uniq++
+				a.Name = 2 + uniq // a task whose callback touches its own name keeps the name to itself
 			}
 			as = append(as, a)
 		}
@@ -1078,10 +1231,15 @@ func record(t *testing.T, out *vh.Out, c *Case) {
 	if c.Expire > 0 {
 		out.Count("descriptor", "expire-duration")
 	}
+	for _, o := range c.Obs {
+		if o.K == "offer-race" {
+			out.Count("timingwheel_offer_vs_stop_race", "seen")
+		}
+	}
 	if StaleSeen > 0 {
 		out.Count("stale_callbacks_after_restart", vh.Bucket(StaleSeen))
 	}
-	out.Add(c, "", nontrivial, v)
+	out.Add(c, coqCase(out.N(), c), nontrivial, v)
 }
 
 var flags vh.Flags
@@ -1109,7 +1267,7 @@ func TestC08Actor(t *testing.T) {
 		}
 		return
 	}
-	out := vh.NewOut(f.Out, "actor", "From MV Require Import Lib.ListX C08.SchedModel C08.ActorModel C08.ActorRun.", "acase", "amismatches", f.Seed,
+	out := vh.NewOut(f.Out, "actor", "From Coq Require Import Uint63.\nFrom MV Require Import Lib.ListX C08.SchedModel C08.SchedRun C08.ActorModel C08.ActorRun.", "acase", "amismatches", f.Seed,
 		"one owner actor on a real ActorSystem inside a synctest bubble: 2..8 steps (message whose handler registers / replaces / stops after, repeated and cron tasks "+
 			"over 3 names, possibly sleeping in between; scripted failure -> supervised restart; stop, graceful or not; shutdown) at virtual instants, optional idle "+
 			"deadline and expire duration, handlers of OnRestarting / OnTerminate / OnTerminated that sleep while timers become due, callbacks that stop or "+
